@@ -116,6 +116,10 @@ q12 += [{"harness": "vxH12Dialect", "args": ["1"], "files": F12, "reach": ["rsta
 q12 += [{"harness": "vxH12DialectE2E", "args": [b(s), b(a)], "files": F12, "preempt": 1, "reach": ["done"],
          "bounds": f"real NewConn, server dotu={b(s)}, client asks for {'9P2000.u' if a else '9P2000'}; then Tstat (Dir fields symbolic, strings 0..1) and a Tclunk of an unknown fid: both frames equal the reference encoding of the negotiated dialect; <= 1 preemption"} for s in (True, False) for a in (True, False)]
 q12 += [client(True, 1), client(True, 4)]
+q12 += [{"harness": "vxH12Retry", "args": [], "files": F12, "reach": ["done"], "bounds": "a Tversion with symbolic msize < 24 (refused) followed by one with symbolic msize >= 24, server msize symbolic: the refusal changes nothing, the retry negotiates min"}]
+# error replies at a tiny msize must fit it in both dialects (shared with C06's one-step harness)
+q12 += [{"harness": "vxH06Step", "args": [str(t), "true", "24"], "files": ["api", "ref_wire", "kit_srv", "kit_net", "c06"], "reach": ["done"],
+         "bounds": f"one request of type {t} at msize 24, symbolic dialect, implementation answering with a 0- or 40-byte error text: the queued reply has a packet that fits its buffer"} for t in (116, 124)]
 t12 = list(q12) + [bound(32, True, 1), bound(63, False, 3), bound(95, True, 1000)]
 t12 += [{"harness": "vxH12Dialect", "args": ["2"], "files": F12, "reach": ["done"], "bounds": "as H12.dialect with strings 0..2 bytes"}]
 t12 += [client(False, 0), client(False, 1), client(True, 0), client(True, 2), client(True, 3), client(False, 4)]
